@@ -41,6 +41,7 @@ def run(ctx: Ctx):
     check_verdicts(ctx, f)
     check_children(ctx, f)
     check_tightening(ctx, f)
+    check_node_rows(ctx)
 
 
 # -- O1 ------------------------------------------------------------------------------------------
@@ -362,6 +363,35 @@ def check_children(ctx: Ctx, f):
     ctx.ob("C04-O5", "R4 SIGN-UNIT", f, "child bound = sign * node LP objective", cb in (["sign * result.objective"], ["result.objective * sign"]), f"{cb}", node=pushes[0])
 
 
+# -- O8 ------------------------------------------------------------------------------------------
+
+
+def check_node_rows(ctx: Ctx):
+    """The node LP must contain every row of A (with the fixed variables moved to the right-hand side): a row that is
+    skipped is a constraint the returned 'feasible' point was never checked against."""
+    sn = ctx.func(MOD, "_solve_node")
+    cfg = cfg_of(sn.node)
+    loops = [n for n in own_nodes(sn.node) if isinstance(n, ast.For) and ast.unparse(n.iter) == "enumerate(A)" and any(isinstance(c, ast.Call) and ast.unparse(c.func) == "A_red.append" for c in ast.walk(n))]
+    ctx.require(len(loops) == 1, "row loop building the reduced node LP not found in _solve_node")
+    lp = loops[0]
+    head = cfg.stmt_node_containing(lp.iter)
+    apps_a = [cfg.stmt_node_containing(c) for c in ast.walk(lp) if isinstance(c, ast.Call) and ast.unparse(c.func) == "A_red.append"]
+    apps_b = [cfg.stmt_node_containing(c) for c in ast.walk(lp) if isinstance(c, ast.Call) and ast.unparse(c.func) == "b_red.append"]
+    bt = [cfg.nodes[i] for i in cfg.succ[head.id] if cfg.nodes[i].kind == "branch" and cfg.nodes[i].pol is True][0]
+    skipped = False
+    for group in (apps_a, apps_b):
+        reach = cfg.forward(bt, avoid={g.id for g in group})
+        if head.id in reach:
+            # a path back to the loop head without the append: acceptable only if it cannot exist without a return
+            skipped = True
+    ctx.ob("C04-O8", "R29 EXACTLY-ONCE", sn, "every row of A contributes one row (coefficients and right-hand side) to the node LP", not skipped, "a path through the row loop reaches the next row without appending: that constraint is absent from the node LP, so an integral point violating it can become the incumbent", node=lp)
+    t = ast.unparse(lp)
+    ctx.ob("C04-O8", "R29 EXACTLY-ONCE", sn, "fixed variables are moved to the right-hand side of their row", "fixed_contrib = sum((row[j] * fixed[j] for j in fixed))" in t and "new_rhs = b[i] - fixed_contrib" in t and "b_red.append(new_rhs)" in t and "A_red.append([row[j] for j in free_vars])" in t, "", node=lp)
+    # the all-fixed case checks every row explicitly
+    t2 = ast.unparse(sn.node)
+    ctx.ob("C04-O8", "R14 GATE", sn, "a node with every variable fixed is checked against every row before it is reported feasible", "if not free_vars:" in t2 and "if lhs > b[i] + eps:" in t2, "", node=sn.node)
+
+
 # -- O6 ------------------------------------------------------------------------------------------
 
 
@@ -463,7 +493,14 @@ def _t_flag_status(tree):
     M.replace_expr(f, lambda e: isinstance(e, ast.IfExp) and M.src_is(e, "Status.OPTIMAL if not tree else Status.FEASIBLE"), M.expr("Status.FEASIBLE if tree else Status.OPTIMAL"))
 
 
+def _v_skip_zero_rows(tree):
+    g = M.find_func(tree, "_solve_node")
+    M.replace_stmt(g, lambda s: M.src_has(s, "A_red.append([row[j] for j in free_vars])") and isinstance(s, ast.Expr), M.stmts("if not any((abs(row[j]) > eps for j in free_vars)):\n    continue\nA_red.append([row[j] for j in free_vars])"))
+
+
 VARIANTS = [
+    M.Variant("node LP skips rows without free variables (seed C04-B)", ML, _v_skip_zero_rows, "C04-O8"),
+
     M.Variant("INFEASIBLE on node-budget exit (original defect)", ML, _v_budget_infeasible, "C04-O4"),
     M.Variant("prune compares internal bound with user-sense incumbent", ML, _v_prune_wrong_sign, "C04-O1"),
     M.Variant("leaf improvement test in user units without minimize guard", ML, _v_leaf_compare_user_units, "C04-O1"),
